@@ -64,6 +64,7 @@ mutual
     | .opTransfer .. => by simp [Impl.toMichBoth, Spec.optBoth]
     | .opDelegate .. => by simp [Impl.toMichBoth, Spec.optBoth]
     | .opEmit .. => by simp [Impl.toMichBoth, Spec.optBoth]
+    | .bigMap .. => by simp [Impl.toMichBoth, Spec.optBoth]
   theorem toMichL_eq : ∀ xs : List Val, Impl.toMichL xs = Spec.optimizedL xs
     | [] => rfl
     | x :: xs => by
@@ -76,7 +77,7 @@ mutual
       cases Spec.optBoth k <;> cases Spec.optBoth v <;> cases Spec.optimizedE xs <;> simp [Impl.primNode, tag_Elt]
     | .unit :: _ | .bool _ :: _ | .num _ _ :: _ | .str _ :: _ | .bytes _ :: _ | .atom _ _ :: _ | .some _ :: _ | .none _ :: _
     | .left _ _ :: _ | .right _ _ :: _ | .list _ _ :: _ | .map _ _ _ :: _ | .set _ _ :: _ | .lam _ _ _ :: _ | .contract _ _ :: _
-    | .opTransfer .. :: _ | .opDelegate .. :: _ | .opEmit .. :: _ => by simp [Impl.toMichE, Spec.optimizedE]
+    | .opTransfer .. :: _ | .opDelegate .. :: _ | .opEmit .. :: _ | .bigMap .. :: _ => by simp [Impl.toMichE, Spec.optimizedE]
   /-- a value contributes at least one component -/
   theorem optBoth_parts : ∀ (v : Val) (y : BMich × List BMich), Spec.optBoth v = some y → 1 ≤ y.2.length
     | .pair a b, y, h => by
@@ -108,6 +109,7 @@ mutual
     | .opTransfer .., y, h => by simp [Spec.optBoth] at h
     | .opDelegate .., y, h => by simp [Spec.optBoth] at h
     | .opEmit .., y, h => by simp [Spec.optBoth] at h
+    | .bigMap .., y, h => by simp [Spec.optBoth] at h
 end
 
 /-! ### binary Micheline: property C05's mirror of `forge_micheline` on annotation-free expressions with at most two
@@ -243,6 +245,7 @@ mutual
     | .opTransfer .., y, h => by simp [Spec.optBoth] at h
     | .opDelegate .., y, h => by simp [Spec.optBoth] at h
     | .opEmit .., y, h => by simp [Spec.optBoth] at h
+    | .bigMap .., y, h => by simp [Spec.optBoth] at h
   theorem optimizedL_plain : ∀ (xs : List Val) (ys : List BMich), Spec.optimizedL xs = some ys → plainL ys = true
     | [], ys, h => by simp [Spec.optimizedL] at h; subst h; rfl
     | x :: xs, ys, h => by
@@ -271,7 +274,7 @@ mutual
     | .unit :: _, _, h | .bool _ :: _, _, h | .num _ _ :: _, _, h | .str _ :: _, _, h | .bytes _ :: _, _, h | .atom _ _ :: _, _, h
     | .some _ :: _, _, h | .none _ :: _, _, h | .left _ _ :: _, _, h | .right _ _ :: _, _, h | .list _ _ :: _, _, h
     | .map _ _ _ :: _, _, h | .set _ _ :: _, _, h | .lam _ _ _ :: _, _, h | .contract _ _ :: _, _, h
-    | .opTransfer .. :: _, _, h | .opDelegate .. :: _, _, h | .opEmit .. :: _, _, h => by simp [Spec.optimizedE] at h
+    | .opTransfer .. :: _, _, h | .opDelegate .. :: _, _, h | .opEmit .. :: _, _, h | .bigMap .. :: _, _, h => by simp [Spec.optimizedE] at h
 end
 
 open Typing in
@@ -342,6 +345,7 @@ mutual
     | .opTransfer .., t, h, hp => by cases t <;> simp [checkVal] at h <;> simp [packable] at hp
     | .opDelegate .., t, h, hp => by cases t <;> simp [checkVal] at h <;> simp [packable] at hp
     | .opEmit .., t, h, hp => by cases t <;> simp [checkVal] at h <;> simp [packable] at hp
+    | .bigMap .., t, h, hp => by cases t <;> simp [checkVal] at h; simp [packable] at hp
   theorem optimizedL_some (s : Bool) : ∀ (xs : List Val) (t : Ty), checkVals s xs t = true → packable t = true →
       (Spec.optimizedL xs).isSome = true
     | [], _, _, _ => by simp [Spec.optimizedL]
